@@ -45,7 +45,8 @@ import os
 import random as pyrandom
 from fractions import Fraction
 
-from harness.core import ll, pl, VERIF
+from harness.core import ll, pl, VERIF, translated_specs
+TRANSLATED = translated_specs("VdcGen")      # doe._van_der_corput, regenerated from the source on every run (notes/TRANSLATOR.md)
 
 PROP = "C12"
 THEOREMS = {"Artap.Props.C12": [
